@@ -72,7 +72,9 @@ def _case(t):
                     if c.type.startswith('COMMENT'):
                         if '\\\n' in c.text:
                             suspects.add('line-break-after-backslash-in-comment')
-                    elif c.type != 'IGNORED':
+                    elif c.type.startswith(('STRING', 'CHAR')) or (c.type not in ('IGNORED', 'NL_CONT', 'NEWLINE') and not c.type.startswith('PP')
+                                                                  and c.text.count('\n') > c.text.count('\\\n')):
+                        # a literal (or another single token) that spans lines; a backslash-newline continuation is not one
                         suspects.add('line-break-in-literal')
             for i, c in enumerate(T):
                 if c.type != 'NEWLINE':
@@ -114,7 +116,7 @@ def _case(t):
                         else 'format(convert_%s(x)) != format(x) under newlines=%s: %s' % (style, nl, first_diff(ref[nl], f.out)))
                 if style in ('cr', 'mix') and suspects:
                     # root-cause key: lone CR line breaks inside the constructs listed (known-broken handling)
-                    probs.append(('lone-cr|' + '+'.join(sorted(suspects)), what))
+                    probs.append((('lone-cr-rejected|' if f.out is None else 'lone-cr|') + '+'.join(sorted(suspects)), what))
                     lone_cr_failed.add(style)
                 else:
                     probs.append(('conv-differs|' + style, what))
@@ -180,7 +182,7 @@ def check(ctx):
         if r['stats']['nontrivial']:
             ctx.nt(r['rel'], r['cfg'])
         for kind, desc in r['probs']:
-            ctx.violation(kind if kind.startswith('lone-cr|') else '%s|%s|%s' % (kind, r['cfg'], r['rel']), 'tests/input/%s config %s: %s' % (r['rel'], r['cfg'], desc),
+            ctx.violation(kind if kind.startswith(('lone-cr|', 'lone-cr-rejected|')) else '%s|%s|%s' % (kind, r['cfg'], r['rel']), 'tests/input/%s config %s: %s' % (r['rel'], r['cfg'], desc),
                           files={'input': corpus.read(r['rel']), 'config.cfg': BASE_CONFIGS[r['cfg']]})
     ctx.sample(dict(file=tasks[0][0], config=tasks[0][2], runs=['F_lf', 'F_crlf', 'F_cr', 'F_lf(crlf x)', 'F_lf(cr x)', 'F_lf(mix x)', 'F_auto(..)']))
     ctx.assumptions += ['auto is judged only when the majority survives subtracting the line breaks the tokenizer does not count (inside comments, literals, continuations; measured from the T dump)',
